@@ -252,31 +252,37 @@ def check_cases(ctx, cases):
                 obs[tag] = ("err", "hang")
                 ctx.fail(case, f"route {tag} does not return ({e})", "route-does-not-terminate:" + tag)
 
-        route("from_data", lambda: mh_obs(hashutil.MultiHash.from_data(data, hash_names=set(names))))
+        # every route of a case is handed the SAME set object (what a caller with a module-level
+        # constant does): the library must not change it, and a later route must not be affected by
+        # an earlier one
+        shared_names = set(names)
+        route("from_data", lambda: mh_obs(hashutil.MultiHash.from_data(data, hash_names=shared_names)))
 
         def manual():
-            mh = hashutil.MultiHash(hash_names=set(names), length=length)
+            mh = hashutil.MultiHash(hash_names=shared_names, length=length)
             for c in split(data, case["chunks"]):
                 mh.update(c)
             return mh_obs(mh)
 
         route("stream", manual)
-        route("from_file", lambda: mh_obs(hashutil.MultiHash.from_file(io.BytesIO(data), hash_names=set(names), length=length)))
-        route("short_reads", lambda: mh_obs(hashutil.MultiHash.from_file(ShortReader(data, case["reads"]), hash_names=set(names), length=length)))
+        route("from_file", lambda: mh_obs(hashutil.MultiHash.from_file(io.BytesIO(data), hash_names=shared_names, length=length)))
+        route("short_reads", lambda: mh_obs(hashutil.MultiHash.from_file(ShortReader(data, case["reads"]), hash_names=shared_names, length=length)))
         path = os.path.join(tmpdir(), "f%d" % (ci % 4))
         with open(path, "wb") as f:
             f.write(data)
-        route("from_path", lambda: mh_obs(hashutil.MultiHash.from_path(path, hash_names=set(names))))
+        route("from_path", lambda: mh_obs(hashutil.MultiHash.from_path(path, hash_names=shared_names)))
         # the same file reached through symbolic links (absolute, relative, chained): a path is a path
         lnk_abs, lnk_rel, lnk_chain = path + ".abs", path + ".rel", path + ".chain"
         for l, t in ((lnk_abs, path), (lnk_rel, os.path.basename(path)), (lnk_chain, os.path.basename(lnk_rel))):
             if os.path.lexists(l):
                 os.unlink(l)
             os.symlink(t, l)
-        route("from_path_symlink", lambda: mh_obs(hashutil.MultiHash.from_path(lnk_abs, hash_names=set(names))))
-        route("from_path_symlink_rel", lambda: mh_obs(hashutil.MultiHash.from_path(os.fsencode(lnk_rel), hash_names=set(names))))
-        route("from_path_symlink_chain", lambda: mh_obs(hashutil.MultiHash.from_path(lnk_chain, hash_names=set(names))))
+        route("from_path_symlink", lambda: mh_obs(hashutil.MultiHash.from_path(lnk_abs, hash_names=shared_names)))
+        route("from_path_symlink_rel", lambda: mh_obs(hashutil.MultiHash.from_path(os.fsencode(lnk_rel), hash_names=shared_names)))
+        route("from_path_symlink_chain", lambda: mh_obs(hashutil.MultiHash.from_path(lnk_chain, hash_names=shared_names)))
 
+        if shared_names != set(names):
+            ctx.fail(case, "a hashing call changed the hash_names set it was given", "argument-mutated:hash_names", {"now": sorted(shared_names), "given": sorted(set(names))})
         # ---------------- oracle on the implementation: every route == hashlib, sha1_git == git blob id
         must_fail_nolen = any(x.endswith("_git") for x in names) and length is None
         for tag, (st, val) in obs.items():
